@@ -213,6 +213,8 @@ def A_of(v):
         return {"t": "str", "v": v}
     if isinstance(v, tuple):
         return {"t": "tuple", "v": [A_of(x) for x in v]}
+    if isinstance(v, list):
+        return {"t": "list", "v": [A_of(x) for x in v]}
     return c03.A_num(v)
 
 
@@ -238,7 +240,11 @@ def oracle(case, work=None):
             if "ok" in got["ctor"]:
                 return f"{desc}: unknown filter name {unknown[0]!r} is ignored by the constructor instead of rejected"
             return None
-        if not admissible_calls(case, objs):
+        try:
+            adm = admissible_calls(case, objs)
+        except Exception:
+            adm = False        # a value outside every documented argument shape
+        if not adm:
             return None
         c, m = got["ctor"], got["meth"]
         if "exc" in c or "exc" in m:
